@@ -1,25 +1,136 @@
 """C12 staged store reads = database with staged writes applied.
-Seeded driver runs operation sequences on the real diffdb.Database (several prefix views, snapshots, commit,
-revert, raw db scans) and logs every call with its result; TLC replays the log on StagedStore.tla and compares
-every read with the same read on the model, the db dump after Commit with eff, after RevertDiff with the
-previous contents."""
-import json, os, re
+Seeded driver runs operation sequences on the real diffdb.Database (several prefix views, snapshots through the root and
+through views, commit / revert through the root and through views, raw db scans through DB and Reader incl. the key-only
+variants, pebble with close + reopen, the store over a snapshot Reader) and logs every call with its result; TLC replays the
+log on StagedStore.tla and compares every read with the same read on the model, the db dump after Commit with eff, after
+RevertDiff with the previous contents.  Directed phases: commits through batchdb, the Range consumers of
+pkg/consensus/liskbft on a real module, two goroutines on two sibling views in a -race build.  Every byte slice the API
+hands out is overwritten after it was logged.  A driver whose trace does not grow for BOUND seconds is sent SIGQUIT and its
+goroutine dump is searched for a goroutine parked on a lock inside pkg/db for at least a minute (deadlock:<fn>)."""
+import json, os, re, signal, subprocess, time
+from concurrent.futures import ThreadPoolExecutor
 import common
 from common import Inconclusive, finish, log
 
 LEVEL = "model_checking"
+BOUND = 120          # seconds a recorder may go without writing to its trace (a whole run normally takes about one second)
+EXP_KEYS = {"range-value": "returned-value-aliased:range-iterate", "set-argument": "set-argument-aliased"}
+
 
 def classify(e, op):
+    if e.get("exp") in EXP_KEYS:
+        return EXP_KEYS[e["exp"]]
     if e.get("stale"):
         return "stale-view-after-restore"
+    if e.get("tag") in ("bft-prune", "restore-state"):
+        return e["tag"]
+    if e.get("tag") == "concurrent-views":
+        return "concurrent-views:" + op
     return op
 
-def validate(ctx, binp, nseq, seed, tag):
+
+# ------------------------------------------------------------------------------------------------ bounded runs, hangs
+def short_fn(frame):
+    fn = frame.rsplit("(", 1)[0] if frame.endswith(")") else frame
+    fn = fn.rsplit("/", 1)[-1]
+    fn = fn.split(".", 1)[1] if "." in fn else fn
+    return fn.replace("(*", "").replace(")", "")
+
+
+def hang_keys(stderr):
+    """goroutines of a SIGQUIT dump that have been parked on a mutex inside lisk-engine's pkg/db for at least a minute:
+    -> {key: stack}.  The key names the outermost pkg/db function of the blocked call chain (the one that was called
+    from outside and never returned).  A wait shorter than a minute is not a verdict (loaded machine)."""
+    keys = {}
+    for blk in re.split(r"\n\s*\n", stderr):
+        lines = blk.strip("\n").split("\n")
+        m = re.match(r"goroutine \d+[^\[]*\[([^\]]*)\]:", lines[0]) if lines else None
+        if not m:
+            continue
+        state = m.group(1)
+        if not re.match(r"(sync\.(RW)?Mutex\.R?Lock|semacquire)", state) or "minutes" not in state:
+            continue
+        frames = [x for x in lines[1:] if not x.startswith("\t") and not x.startswith("created by")]
+        idx = [i for i, f in enumerate(frames) if "github.com/LiskHQ/lisk-engine/pkg/db" in f]
+        if not idx:
+            continue
+        i0 = idx[0]
+        if any(not f.startswith(("sync.", "runtime.", "internal/")) for f in frames[:i0]):
+            continue     # parked inside something pkg/db called (pebble): not a lock of the store
+        j = i0
+        while j + 1 < len(frames) and "github.com/LiskHQ/lisk-engine/pkg/db" in frames[j + 1]:
+            j += 1
+        keys["deadlock:" + short_fn(frames[j])] = dict(state=state, stack=frames[i0:j + 2])
+    return keys
+
+
+def bounded(ctx, argv, env, progress, bound=BOUND, cap=1500):
+    """run a recorder until it ends; if the file `progress` (its trace) has not grown for `bound` seconds (or after `cap`
+    seconds in all) it is sent SIGQUIT -> (returncode or None when it had to be stopped, stdout, stderr)"""
+    e = dict(os.environ); e.update(common.GOENV)
+    e["VERIF_SEED"] = str(ctx.seed); e["VERIF_TIER"] = ctx.tier; e["GOTRACEBACK"] = "all"
+    e.update(env or {})
+    t = time.time()
+    fo, fe = open(progress + ".stdout", "w+"), open(progress + ".stderr", "w+")
+    p = subprocess.Popen(argv, cwd=ctx.scratch, env=e, stdout=fo, stderr=fe, text=True)
+    size, since, rc = -1, time.time(), None
+    while True:
+        try:
+            rc = p.wait(timeout=2)
+            break
+        except subprocess.TimeoutExpired:
+            pass
+        sz = os.path.getsize(progress) if os.path.exists(progress) else 0
+        if sz != size:
+            size, since = sz, time.time()
+        if time.time() - since > bound or time.time() - t > cap:
+            p.send_signal(signal.SIGQUIT)      # the Go runtime prints every goroutine with its wait time and exits
+            try:
+                p.wait(timeout=60)
+            except subprocess.TimeoutExpired:
+                p.kill(); p.wait()
+            rc = None
+            break
+    fo.seek(0); fe.seek(0)
+    out, err = fo.read(), fe.read()
+    fo.close(); fe.close()
+    log("[run] %s %s rc=%s %.1fs" % (os.path.basename(argv[0]), argv[4] if len(argv) > 4 else "", rc, time.time() - t))
+    return rc, out, err
+
+
+def record(ctx, binp, nseq, seed, tag, mode=None, env=None):
+    """one recorder run -> (meta, trace path, stderr).  A hang is a violation of C12 (reported by the C12 check only)."""
     tr = ctx.path("c12_%s.ndjson" % tag); meta = ctx.path("c12_%s.json" % tag)
-    p = ctx.run([binp, tr, meta, str(nseq)], env={"VERIF_SEED": str(seed)})
-    if p.returncode != 0:
-        raise Inconclusive("driver failed: " + p.stderr[-1500:])
-    m = json.load(open(meta))
+    for f in (tr, meta):
+        if os.path.exists(f):
+            os.remove(f)
+    argv = [binp, tr, meta, str(nseq)] + ([mode] if mode else [])
+    en = {"VERIF_SEED": str(seed)}
+    en.update(env or {})
+    rc, out, err = bounded(ctx, argv, en, tr)
+    if rc is None:
+        hk = hang_keys(err)
+        if hk and ctx.pid == "C12":
+            for k, d in hk.items():
+                ctx.violation(k, "the recorder (%s) made no progress for %d s: a goroutine is parked on a lock inside pkg/db (%s) at %s" % (
+                    mode or "sequences", BOUND, d["state"], " <- ".join(short_fn(f) for f in d["stack"][:6])),
+                    dict(seed=seed, sequences=nseq, mode=mode or "sequences", stack=d["stack"]))
+            raise Inconclusive("recorder hung (reported as %s)" % sorted(hk))
+        raise Inconclusive("recorder made no progress for %d s and no goroutine is parked on a pkg/db lock for a minute: no verdict\n%s" % (BOUND, err[-1500:]))
+    if rc != 0:
+        rp = common.real_code_panic(err)
+        if rp:
+            ctx.real_panic = (rp[0], rp[1], list(argv), err[:1500])
+        raise Inconclusive("driver failed: " + err[-1500:])
+    return json.load(open(meta)), tr, err
+
+
+def check_trace(ctx, traces, tag):
+    """validate the concatenation of recorded traces -> (lines, mismatches, havoc count)"""
+    tr = ctx.path("c12_%s_all.ndjson" % tag)
+    with open(tr, "w") as fh:
+        for t in traces:
+            fh.write(open(t).read())
     lines = open(tr).read().splitlines()
     r = ctx.tlc("StagedStoreTrace", "StagedStoreTrace", workers=1, timeout=3000, files={"trace.ndjson": tr})
     if r["violation"]:
@@ -34,13 +145,111 @@ def validate(ctx, binp, nseq, seed, tag):
         start = max(i for i in range(ln) if '"op":"reset"' in lines[i])
         res.append(dict(line=ln, key=classify(e, op), observed=e, expected=exp.replace("\\", "")[:600],
                         history=[json.loads(x) for x in lines[start:ln]]))
+    return lines, res, len(re.findall(r'<<"HAVOC", \d+>>', r["out"]))
+
+
+def validate(ctx, binp, nseq, seed, tag):
+    """recorded sequences of the normal build, validated (also used by C05 for the commit / revert steps)"""
+    m, tr, _ = record(ctx, binp, nseq, seed, tag)
+    lines, res, havoc = check_trace(ctx, [tr], tag)
+    m["havoc"] = havoc
     return m, lines, res
 
+
+# ------------------------------------------------------------------------------------------------ race build
+def parse_races(stderr):
+    """reports of the race detector -> list of (key, text, in_repo); key = race:<innermost lisk-engine function>"""
+    res = []
+    repo = common.REPO.rstrip("/") + "/"
+    for blk in re.split(r"={18}\n", stderr):
+        if "WARNING: DATA RACE" not in blk:
+            continue
+        fns = []
+        for sec in re.split(r"\n\s*\n", blk):
+            ls = sec.strip("\n").split("\n")
+            while ls and not re.match(r"^(Read|Write|Previous read|Previous write|Atomic \w+|Previous atomic \w+) at ", ls[0]):
+                ls = ls[1:]
+            for i in range(1, len(ls) - 1, 2):
+                loc = ls[i + 1].strip()
+                if loc.startswith(repo) or "github.com/LiskHQ/lisk-engine/pkg/" in ls[i]:
+                    fns.append(short_fn(re.sub(r"\(\)$", "", ls[i].strip())))
+                    break
+        if fns:
+            res.append(("race:" + "|".join(sorted(set(fns))), blk[:1500], True))
+        else:
+            res.append(("race:harness", blk[:1500], False))
+    return res
+
+
+def race_round(ctx, bin_race, rounds, seed, tag):
+    m, tr, err = record(ctx, bin_race, rounds, seed, tag, mode="race", env={"GORACE": "exitcode=0 halt_on_error=0"})
+    races = parse_races(err)
+    if any(not r[2] for r in races):
+        raise Inconclusive("the race detector reports a race inside the harness itself:\n%s" % [r[1] for r in races if not r[2]][0])
+    shown = set()
+    for k, text, _ in races:
+        if k in shown or len(shown) >= 3:     # one report per pair of functions, three pairs are enough to locate the cause
+            continue
+        shown.add(k)
+        ctx.violation(k, "two goroutines working on two sibling views of one staged store (-race build): %s" % " ".join(text.split())[:600],
+                      dict(seed=seed, rounds=rounds, mode="race"))
+    m["races"] = len(races)
+    return m, tr
+
+
+# ------------------------------------------------------------------------------------------------ driver
+def one_round(ctx, binp, bin_race, nseq, rounds, seed, tag):
+    exp = {"VERIF_EXPERIMENTAL": os.environ.get("VERIF_EXPERIMENTAL", "")}
+    with ThreadPoolExecutor(2) as ex:     # the two recorders are independent processes
+        fr = ex.submit(race_round, ctx, bin_race, rounds, seed, tag + "race") if bin_race else None
+        try:
+            m, tr, _ = record(ctx, binp, nseq, seed, tag, env=exp)
+        finally:
+            rr = None
+            if fr:
+                try:
+                    rr = fr.result()
+                except Inconclusive as e:
+                    rr = e
+    if isinstance(rr, Inconclusive):
+        raise rr
+    traces = [tr]
+    if rr:
+        mr, trr = rr
+        for k, v in mr.items():
+            m[k] = m.get(k, 0) + v
+        traces.append(trr)
+    lines, res, havoc = check_trace(ctx, traces, tag)
+    m["havoc"] = havoc
+    return m, lines, res
+
+
+WHAT = "read through the staged store differs from the model at trace line %d: observed %s expected %s"
+
+# non-vacuity: (counter, minimum per 1500 sequences, what it counts)
+GUARDS = [("range", 2000, "range reads"), ("restore_ok", 150, "successful restores"), ("commit", 500, "commits"),
+          ("dbiterkey", 300, "key-only raw scans"), ("dbiter_reader", 150, "Reader.Iterate scans"),
+          ("scan255_nonempty", 50, "non-empty scans of prefixes without an upper bound"),
+          ("commit_view", 200, "commits through a view"), ("revert_view", 50, "reverts through a view"),
+          ("snap_view", 150, "snapshots through a view"), ("restore_view_ok", 20, "successful restores through a view"),
+          ("scribble_get", 120, "Get results overwritten"), ("scribble_scan", 500, "raw scan results overwritten"),
+          ("multibyte_reads", 30, "values of 2-3 bytes read"), ("reopen", 50, "close + reopen of the database"),
+          ("reader_seq", 100, "sequences with the store over a Reader"), ("bcommit", 50, "commits through batchdb"),
+          ("bget", 150, "batchdb reads"), ("bft_get_multi", 100, "liskbft lookups with at least two candidates"),
+          ("bft_prune_removed", 100, "blocks after which liskbft pruned an entry"), ("bft_flush", 100, "liskbft flushes"),
+          ("race_calls", 600, "calls made by two concurrent goroutines")]
+
+
 def run(ctx):
-    binp = ctx.go_build("./cmd/c12")
+    ctx.harness()
+    with ThreadPoolExecutor(2) as ex:     # the two builds share nothing but the Go build cache
+        fr = ex.submit(ctx.go_build, "./cmd/c12", True)
+        binp = ctx.go_build("./cmd/c12")
+        bin_race = fr.result()
     if ctx.replay:
         d = json.load(open(ctx.replay))["replay"]
-        m, lines, res = validate(ctx, binp, d["sequences"], d["seed"], "replay")
+        nseq = d.get("sequences") or 1500
+        m, lines, res = one_round(ctx, binp, bin_race, nseq, d.get("rounds") or max(20, nseq // 15), d["seed"], "replay")
         for x in res:
             ctx.violation(x["key"], "read through the staged store differs from the model: observed %s expected %s" % (
                 json.dumps(x["observed"])[:300], x["expected"][:300]), dict(d, line=x["line"]))
@@ -51,22 +260,33 @@ def run(ctx):
     samples = []
     for i in range(rounds):
         seed = ctx.seed * 100 + i
-        m, lines, res = validate(ctx, binp, nseq, seed, "r%d" % i)
+        m, lines, res = one_round(ctx, binp, bin_race, nseq, nseq // 15, seed, "r%d" % i)
         for k, v in m.items():
             tot[k] = tot.get(k, 0) + v
         for x in res:
-            ctx.violation(x["key"], "read through the staged store differs from the model at trace line %d: observed %s expected %s" % (
-                x["line"], json.dumps(x["observed"])[:400], x["expected"][:300]),
-                dict(seed=seed, sequences=nseq, line=x["line"], history=x["history"][-40:]))
+            ctx.violation(x["key"], WHAT % (x["line"], json.dumps(x["observed"])[:400], x["expected"][:300]),
+                          dict(seed=seed, sequences=nseq, rounds=nseq // 15, line=x["line"], history=x["history"][-40:]))
         log("[c12] round %d: %d events, %d mismatches %s" % (i, len(lines), len(res), sorted(set(x["key"] for x in res))))
         if not samples:
             samples = [json.loads(l) for l in lines[1:6]]
-    if not ctx.violations and (tot.get("range", 0) < 100 or tot.get("restore", 0) < 10 or tot.get("commit", 0) < 10):
-        raise Inconclusive("driver did not exercise range/restore/commit: vacuous")
+    if not ctx.violations:
+        scale = rounds * nseq / 1500.0
+        low = ["%s (%d < %d)" % (what, tot.get(k, 0), int(n * scale)) for k, n, what in GUARDS if tot.get(k, 0) < int(n * scale)]
+        if low:
+            raise Inconclusive("driver did not exercise enough: vacuous: " + "; ".join(low))
+        if tot.get("havoc", 0) or tot.get("bft_apply_err", 0) > tot.get("bft_seq", 0) // 10:
+            raise Inconclusive("parts of the trace could not be judged (restores of deleted snapshots that succeeded: %d, liskbft "
+                               "sequences cut short: %d)" % (tot.get("havoc", 0), tot.get("bft_apply_err", 0)))
     cov = dict(traces_validated_against_impl=tot["sequences"], samples=samples, recorded_calls=tot["events"],
                range_reads=tot.get("range", 0), prefix_iterations=tot.get("iter", 0), raw_db_scans=tot.get("dbscan", 0),
                snapshot_restores=tot.get("restore", 0), commits=tot.get("commit", 0), reverts=tot.get("revert", 0),
+               counters={k: v for k, v in sorted(tot.items())},
+               experimental=bool(os.environ.get("VERIF_EXPERIMENTAL") == "1"),
                rule="one TLC state per recorded call; every read result compared with the same read on eff = db + staged ops")
-    finish(ctx, LEVEL, cov, assumptions=["keys over the byte alphabet {0,1,2,255}, length <= 5; values empty or one byte",
+    finish(ctx, LEVEL, cov, assumptions=["keys over the byte alphabet {0,1,2,255}, length <= 5 (liskbft phase: 4-byte big-endian heights under the module's own prefixes); values of 0-3 bytes",
                                          "limit 0 is not generated (the statement does not fix its meaning)",
-                                         "snapshots are taken/restored on the root store as pkg/statemachine does"])
+                                         "snapshot ids are per store object; whether an id can be restored a second time, and whether snapshots "
+                                         "younger than a restored one survive, is left open (both accepted); a restore of a live snapshot must succeed",
+                                         "two goroutines work on DISJOINT views (production: one goroutine per store); their calls are validated in the order A then B",
+                                         "callers that overwrite the values returned by staged Range / Iterate, or the slice handed to Set, are checked "
+                                         "only with VERIF_EXPERIMENTAL=1 (candidate finding: the overlay keeps those slices)"])
